@@ -28,8 +28,8 @@ ASSUMPTIONS = [
     "set elements / mapping keys range over every type with a hashable Python form (leaves, tuples, sequences as tuples, sets as frozensets, variants); a mapping cannot be a key (Python has no hashable dict, so the API has no value of such a type)",
 ]
 REQUIRED_TAGS = {
-    "quick": ["disturbed-serializer", "has:nonascii", "has:node", "has:boundary-int", "type:variant", "type:mapping"],
-    "thorough": ["disturbed-serializer", "has:nonascii", "has:node", "has:boundary-int", "type:variant", "type:mapping"],
+    "quick": ["key-type:sequence", "key-type:set", "key-type:variant", "disturbed-serializer", "has:nonascii", "has:node", "has:boundary-int", "type:variant", "type:mapping"],
+    "thorough": ["key-type:sequence", "key-type:set", "key-type:variant", "disturbed-serializer", "has:nonascii", "has:node", "has:boundary-int", "type:variant", "type:mapping"],
 }
 
 SENTINEL = 0x0123456789ABCDEF
